@@ -74,6 +74,12 @@ def daemon_specs(tier, seed):
         specs.append(flowcheck.prepare(dict(tag="C02/s%03d" % len(specs), certs=[simple_cert("k%d" % len(specs))], steps=steps, account_hooks=file_hooks,
                                             accounts=[{"name": "acc1", "contacts": [{"mailto": "k@example.org"}], "key_type": seq[0]}],
                                             meta={"family": "account key roll-overs (superseded keys accumulate)", "key_types": seq})))
+    # certificates that differ in key type only (the usual RSA + ECDSA pair; their ids and default file names differ by the key type):
+    # each has its own two files
+    for kts in (("rsa2048", "ecdsa_p256"), ("ecdsa_p384", "ecdsa_p256", "ed25519")):
+        specs.append(flowcheck.prepare(dict(tag="C02/s%03d" % len(specs), certs=[simple_cert("dual", key_type=kt) for kt in kts], account_hooks=file_hooks,
+                                            steps=[("run", {"attempts": 1}), ("call", set_chain(3)), ("run", {"attempts": 1})],
+                                            meta={"family": "certificates of one name that differ in key type", "key_types": list(kts)})))
     specs.append(flowcheck.prepare(dict(tag="C02/s%03d" % len(specs), certs=[simple_cert("e1"), simple_cert("e2", endpoint="B")],
                                         endpoints={"A": {}, "B": {}}, attempts=2, account_hooks=file_hooks,
                                         meta={"family": "account used on two endpoints"})))
